@@ -59,6 +59,10 @@ let eval (op : string) (args : sx list) : sx list =
   | "minimize", [r] -> [A "ok"; sx_of_segs (minimize (region_of_sx r))]
   | "invert_linear", [r; n] -> [A "ok"; L (List.map sx_of_region (invert_linear (region_of_sx r) (z_of_sx n)))]
   | "invert_circular", [r; n] -> sx_of_out (fun rr -> [L (List.map sx_of_region rr)]) (invert_circular (region_of_sx r) (z_of_sx n))
+  | "complement_bytes", [p] -> sx_of_out (fun b -> [sx_of_bytes b]) (complement_bytes (bytes_of_sx p))
+  | "transcribe_bytes", [p] -> sx_of_out (fun b -> [sx_of_bytes b]) (transcribe_bytes (bytes_of_sx p))
+  | "match", [s; q] -> sx_of_out (fun l -> [sx_of_segs l]) (match_segments (bytes_of_sx s) (bytes_of_sx q))
+  | "search", [s; q] -> [A "ok"; sx_of_segs (search_segments (bytes_of_sx s) (bytes_of_sx q))]
   | _ -> [A "unknown-op"]
 
 let () =
